@@ -42,6 +42,11 @@ import (
 // Clean Start 0 while b publishes to x (QoS 0 or 1; variant "inflight": a also holds an unacknowledged
 // message that is resent on resumption); all interleavings up to the deviation bound
 // (0,1,2): on the new connection the first packet must be CONNACK, sent exactly once.
+// Variant "big": the broker runs with ClientNetWriteBufferSize = 64 and b's payloads are 100 bytes,
+// so that every PUBLISH for a is at least as large as the write buffer (the size-dependent branches
+// of Client.WritePacket: direct write past the buffer / flush when the buffer fills) while the
+// CONNACK and the acknowledgements are smaller. The whole byte stream of the new connection must
+// frame into packets (a direct write that overtakes or splits buffered bytes shows up here).
 
 type c13Raw struct {
 	typ   byte
@@ -323,14 +328,28 @@ func c13E1Run(arg string) explore.HistFn {
 
 // ---------- part 2: E3 ----------
 
+const (
+	c13SmallWriteBuffer = 64  // ClientNetWriteBufferSize of the "big" variants
+	c13BigPayload       = 100 // payload bytes of b's publishes in the "big" variants
+)
+
 func c13RaceRun(arg string) explore.RunFn {
 	qos := byte(0)
 	if strings.Contains(arg, "q1") {
 		qos = 1
 	}
 	two := strings.Contains(arg, "two")
+	big := strings.Contains(arg, "big")
+	pad := ""
+	if big {
+		pad = strings.Repeat(".", c13BigPayload-2)
+	}
 	return func(prefix []int) explore.Outcome {
-		w := world.New(prefix, world.Config{})
+		var cfg world.Config
+		if big {
+			cfg.Opts = func(o *mqtt.Options) { o.ClientNetWriteBufferSize = c13SmallWriteBuffer }
+		}
+		w := world.New(prefix, cfg)
 		defer w.End()
 		e := &concEnv{W: w}
 		w.Serve()
@@ -347,7 +366,7 @@ func c13RaceRun(arg string) explore.RunFn {
 		w.Run()
 		e.A.Do(sub(1, "x", 1))
 		if strings.Contains(arg, "inflight") {
-			e.B.Do(pub("x", "m0", 1, 9)) // a holds an unacknowledged message: it is resent after the CONNACK
+			e.B.Do(pub("x", "m0"+pad, 1, 9)) // a holds an unacknowledged message: it is resent after the CONNACK
 		}
 		if strings.Contains(arg, "dropfirst") {
 			e.A.Drop() // the old connection is already gone: plain resume instead of takeover
@@ -357,16 +376,19 @@ func c13RaceRun(arg string) explore.RunFn {
 		}
 		// concurrent part: a reconnects (clean start 0) while b publishes to x
 		a2.Send(v5connect("a", false, 8, 60))
-		e.B.Send(pub("x", "m1", qos, uint16(qos)))
+		e.B.Send(pub("x", "m1"+pad, qos, uint16(qos)))
 		if two {
-			e.B.Send(pub("x", "m2", qos, uint16(qos)*2))
+			e.B.Send(pub("x", "m2"+pad, qos, uint16(qos)*2))
 		}
 		w.Explore(true)
 		w.Run()
 		w.Explore(false)
 		o := explore.Outcome{Points: w.X.Points, Divergence: w.X.Divergence(), Steps: w.X.Steps(), StepLog: w.X.StepLog, Counters: map[string]int{}}
 		o.Viol = runtimeViolations(w)
-		pks, _ := c13Split(a2.C.Out)
+		pks, rest := c13Split(a2.C.Out)
+		if len(rest) > 0 {
+			o.Viol = append(o.Viol, explore.Violation{Key: "output:unframed-bytes", Msg: fmt.Sprintf("output of a's new connection does not frame into packets: % x", a2.C.Out)})
+		}
 		var types []string
 		nConnack, firstPub, firstConnack := 0, -1, -1
 		for i, p := range pks {
@@ -390,6 +412,11 @@ func c13RaceRun(arg string) explore.RunFn {
 				key = "pre-connack:publish-after-Clients.Add"
 				if pks[0].flags&8 != 0 {
 					key = "pre-connack:resent-inflight-message"
+				}
+				if big && len(pks[0].body)+2 >= c13SmallWriteBuffer {
+					// the shape of the size-dependent write path: a packet not smaller than the
+					// client write buffer reached the connection before the CONNACK
+					key += ":packet-not-smaller-than-write-buffer"
 				}
 			}
 			o.Viol = append(o.Viol, explore.Violation{Key: key, Msg: fmt.Sprintf("new connection of a received %v: the first packet is not CONNACK (raw % x)", types, a2.C.Out)})
@@ -416,13 +443,14 @@ func init() {
 		bounds := []explore.Bounds{{Preempt: 0}, {Preempt: 1}, {Preempt: 2}}
 		if c.Quick() {
 			explore.RunBFS(c, "c13e1", "quick", 1, 45*time.Second)
-			for _, s := range []string{"q0", "q1,inflight"} {
+			for _, s := range []string{"q0,big", "q1,big", "q0", "q1,inflight"} {
 				explore.IterateDFS(c, "c13race", s, bounds, 40*time.Second)
 			}
 		} else {
 			explore.RunBFS(c, "c13e1", "full", 1, 7*time.Minute)
 			bounds = append(bounds, explore.Bounds{Preempt: 3})
-			for _, s := range []string{"q0", "q1", "q1,inflight", "q0,two", "q1,two", "q0,dropfirst", "q1,inflight,dropfirst"} {
+			for _, s := range []string{"q0", "q1", "q1,inflight", "q0,two", "q1,two", "q0,dropfirst", "q1,inflight,dropfirst",
+				"q0,big", "q1,big", "q1,inflight,big", "q0,two,big", "q1,two,big", "q1,inflight,dropfirst,big"} {
 				explore.IterateDFS(c, "c13race", s, bounds, 45*time.Second)
 			}
 		}
